@@ -72,12 +72,16 @@ PROP = {'rule': 'rapid-generated cases. loop (KillAndEvictPods): 1-3 tasks over 
                       '(d) multi-round histories through memoryEvict()/cpuEvict() with the real Evictor: a pod evicted in an earlier round '
                       'is never evicted again, and no pod is evicted in a round whose target is already covered by this round\'s victims '
                       'plus the earlier victims that are still present (terminating) and allowed for the task - first those ahead of the '
-                      'new victim in the restated published order, then all of them. '
+                      'new victim in the restated published order, then all of them. Only pods whose eviction call was ACCEPTED count as '
+                      'victims: no eligible, not yet evicted pod that certainly still helps may be passed over in the order, and a round '
+                      'that ends with a target the accepted victims do not cover (even under the most generous crediting) must have asked '
+                      'for every such pod. '
                       'Exploration, not proof: absence of violations over the sampled cases.',
               'note': 'Where the statement leaves room the lenient reading is asserted and the strict one only counted as a class: '
                       'pending (already-evicted) pods count only if they belong to the calling task\'s own list / are allowed by its '
                       'policy; a victim that frees nothing for its own '
                       'task but something for another task of the same round is accepted; pods without usage sample are not judged; the '
-                      'BE lists are not required to honour the eviction-priority annotation. Under-eviction (stopping early, e.g. because '
-                      'memoryevict multiplies pod usage by 1000 in the by-priority lists) is outside the statement and not asserted. '
+                      'BE lists are not required to honour the eviction-priority annotation. Under-eviction is asserted only in the rounds '
+                      'units and only where no reading of the accounting covers the target (stopping early merely because '
+                      'memoryevict multiplies pod usage by 1000 in the by-priority lists is not flagged). '
                       'rapid\'s PRNG and shrinker; Go map iteration inside koordinator is not controlled; perf_group stand-in.'}}
